@@ -94,6 +94,8 @@ def build_array(ad):
         return np.zeros((n, 1, 1), np_dtype(dtype))
     if form == "own":
         return base
+    if form == "fortran":     # an owning array in Fortran order (only differs from "own" for 2-D data)
+        return np.asfortranarray(base)
     if form == "view":      # a[k:] style view of a larger owning array
         big = np.concatenate([base[:1], base, base[:1]]) if n else np.concatenate([base, base])
         v = big[1:1 + n] if n else big[0:0]
@@ -240,6 +242,11 @@ def apply(pool, op):
         pool.objs.append(w)
         return None
     w = pool.objs[op["i"]]
+    if k == "load" and "self_bcast" in op["arr"]:
+        a0, m = op["arr"]["self_bcast"]
+        view = (w.data if kind_of(w) in ("D", "S") else w.raw_data)[a0:a0 + 1]
+        w.load_data(np.broadcast_to(view, (m,) + view.shape[1:]), copy=True)
+        return None
     if k == "load":
         kw = {"copy": op["copy"]}
         if "start" in op and op["start"] is not None:
@@ -357,7 +364,8 @@ def arr_desc(rng, kind, dtype, ncols, n=None, bad=0.12):
         nc = rng.choice([c for c in (1, 2, 3, 4) if c != ncols])
     hi = 2 if dtype == "bool" else 8 if kind == "D" else 100
     vals = [[rng.randrange(hi) for _ in range(nc)] for _ in range(n)]
-    return {"vals": vals, "ndim": ndim, "ncols": nc, "dtype": dtype, "form": rng.choice(["own", "own", "view", "strided"])}
+    form = rng.choice(["own", "own", "view", "strided"] + (["fortran", "fortran"] if ndim == 2 else []))
+    return {"vals": vals, "ndim": ndim, "ncols": nc, "dtype": dtype, "form": form}
 
 
 def timing_desc_gen(rng, count=None):
@@ -482,6 +490,13 @@ class OnlineGen:
         choices += self.focus.get("extra", [])
         k = rng.choice(choices)
         u = UNIT[FAM]
+        if k == "load" and cnt and rng.random() < 0.08 and not (kind == "D" and ncols == 0):
+            # load_data(copy=True) of a stride-0 view of one of the receiver's own samples, longer than its capacity
+            a0 = rng.randrange(cnt)
+            m = (len(w.timing._timestamps) if irregular else cap + rng.choice([1, 3]))
+            row = from_np((w.data if kind in ("D", "S") else w.raw_data)[a0:a0 + 1])[0]
+            return {"op": "load", "i": j, "copy": True,
+                    "arr": {"vals": [row] * m, "ndim": 2 if kind == "D" else 1, "ncols": ncols, "dtype": dtype, "form": "view", "self_bcast": [a0, m]}}
         if k == "load":
             n = cnt if (irregular and rng.random() < 0.7) else None
             a = arr_desc(rng, kind, dtype, ncols, n=n, bad=self.bad)
@@ -674,6 +689,9 @@ def arrc(ad, copy_owns=None):
     vals, ndim, nc = ad["vals"], ad["ndim"], ad["ncols"]
     rows = vals if ndim in (1, 2) else []
     owns = ad["form"] == "own" if copy_owns is None else copy_owns
+    if copy_owns is None and ad["form"] == "fortran":
+        # a Fortran-ordered buffer can only be resized when it is C-contiguous as well (one column or one row)
+        owns = ndim != 2 or nc <= 1 or len(vals) <= 1
     owns = owns or (ndim == 2 and nc == 0)        # a zero-size buffer can always be "resized"
     return "{| a_rows := %s; a_ndim := %s; a_ncols := %s; a_dtype := %d; a_owns := %s |}" % (
         rowsc(rows), vf.natc(ndim), vf.natc(nc), DTYPES.index(ad["dtype"]), vf.boolc(owns))
@@ -693,7 +711,7 @@ def opc(op):
         dreq = op.get("dtype_req")
         # from_array_1d / from_lines convert with np.asarray(array, dtype, copy=copy) first
         eff = dict(a)
-        owns = a["form"] == "own"
+        owns = a["form"] == "own" or (a["form"] == "fortran" and (a["ndim"] != 2 or a["ncols"] <= 1 or len(a["vals"]) <= 1))
         if via != "ctor":
             if via == "from_array_2d":
                 owns = False          # a row of the caller's 2-D array unless copied
